@@ -514,7 +514,7 @@ impl SessionEngine {
 
 
 //@@ fn file=fe2o3-amqp/src/session/engine.rs impl=`~impl<S>SessionEngine<S>whereS:endpoint::SessionEndpoint<State=SessionState>+SendBound+Sync+'static,` name=event_loop as=event_loop_tail
-//@@ tailfrom `let session_stop_reason = match &outcome`
+//@@ tailafter `loop {`
 //@@ addparam outcome: Result<(), SessionInnerError>
 //@@ param tx : SessOutcomeTx
 //@@ subst `(mut self,` => `(&mut self,` rule=R32
